@@ -1332,8 +1332,8 @@ func TestVerifC08(t *testing.T) {
 	c08EstimatorTable(t, rec)
 	seed := vu.Seed()
 	if vu.Thorough() {
-		n := c08Enumerate(t, rec, 4, []string{"p1", "p2"}, func(i int) bool { return (int64(i)+seed)%3 == 0 })
-		t.Logf("c08: enumerated %d histories of depth 4 (1/3 sampled by seed)", n)
+		n := c08Enumerate(t, rec, 4, []string{"p1", "p2"}, func(i int) bool { return (int64(i)+seed)%2 == 0 })
+		t.Logf("c08: enumerated %d histories of depth 4 (every second one, chosen by the seed)", n)
 	} else {
 		n := c08Enumerate(t, rec, 3, []string{"p1", "p2"}, nil)
 		t.Logf("c08: enumerated %d histories of depth 3", n)
@@ -1341,7 +1341,7 @@ func TestVerifC08(t *testing.T) {
 	rng := vu.Rand(8)
 	ncfg, nseg, steps := 24, 160, 45
 	if vu.Thorough() {
-		ncfg, nseg, steps = 120, 2500, 60
+		ncfg, nseg, steps = 150, 6000, 60
 	}
 	cfgs := make([]*c08Cfg, ncfg)
 	for i := range cfgs {
